@@ -1,4 +1,5 @@
 import LcModel.Proofs.Lemmas
+import LcModel.Mmr.Witness
 /-!
 # C02 — only data committed by a proven header is ever indexed or served as fetched
 
@@ -527,5 +528,58 @@ example :
     let r := onBlocksProof pinned s 1 m
     r.2 = INVALID_PROOF ∧ r.1.hdr 5 = none ∧ r.1.fh 6 = some ⟨0, 3, false, false⟩ := by
   decide
+
+/-! ## what the MMR verdict means (`verify_mmr_proof`, `MerkleProof::verify`, `MergeHeaderDigest`)
+
+The handler theorems above take the verdict of `verify_mmr_proof` as an input.  The `Mmr` layer
+models that function together with the library code it calls (`calculate_root`,
+`calculate_peak_root`, `calculate_peaks_hashes`, the bagging, `MergeHeaderDigest::merge`,
+`HeaderView::digest`, the position arithmetic) over blake2b as a free term algebra, and is tied
+to the code by the function-level differential `lcverif MMR` (part of `./check C02`). -/
+
+/-- **the MMR verdict binds the headers to the chain.**  If the parent chain root of the last
+header is the honest root of a chain, then every header of a list that `verify_mmr_proof` accepts
+is a header of that chain: the chain has, at the header's number, a header with its hash.  For all
+chains, proofs, header lists (any order, duplicates, any length), and without any assumption on
+the proof items, which the peer chooses freely. -/
+theorem mmr_binds_headers (hdrAt : Nat → Option Mmr.Hdr) (valid : Bool) (lastNumber : Nat)
+    (root : Mmr.Digest) (proof : List Mmr.Digest) (headers : List Mmr.Hdr)
+    (hroot : Mmr.Honest hdrAt root)
+    (h : Mmr.verifyMmrProof valid lastNumber root proof headers = .ok true) :
+    ∀ hd ∈ headers, ∃ c, hdrAt hd.number = some c ∧ c.hash = hd.hash :=
+  Mmr.verifyMmrProof_sound hdrAt valid lastNumber root proof headers hroot h
+
+/-- what `calculate_root` binds, whatever the root is: every leaf that survives the library's
+sort + dedup went into the calculated root through `merge`s -/
+theorem mmr_root_contains_leaves (leaves : List (Nat × Mmr.Digest)) (size : Nat)
+    (proof : List Mmr.Digest) (r : Mmr.Digest)
+    (h : Mmr.calculateRoot leaves size proof = .ok r) :
+    ∀ l ∈ Mmr.dedupByPos (Mmr.sortByPos leaves), Mmr.Sub l.2 r :=
+  Mmr.calculateRoot_sub leaves size proof r h
+
+/-- distinct block numbers have distinct MMR positions (so the only leaves the library's dedup
+can drop are headers with the NUMBER of a verified one, which `noTwins` compares by hash) -/
+theorem mmr_positions_injective {i j : Nat} (hi : i + 2 < 2 ^ 64) (hj : j + 2 < 2 ^ 64)
+    (h : Mmr.leafIndexToPos i = Mmr.leafIndexToPos j) : i = j :=
+  Mmr.leafIndexToPos_injective hi hj h
+
+/-- **witness of the defect repaired by a1163a3**: without the `noTwins` check a made-up header
+with the number of a proved block, served after it, is accepted against the honest root of a
+chain that does not contain it; the repaired function rejects the list. -/
+theorem old_rule_accepts_twin :
+    Mmr.Honest Mmr.Witness.hdrAt Mmr.Witness.root2 ∧
+    Mmr.verifyMmrProofCfg false true 2 Mmr.Witness.root2 [Mmr.Witness.d 0]
+      [Mmr.Witness.hd 1, Mmr.Witness.twin] = .ok true ∧
+    (¬ ∃ c, Mmr.Witness.hdrAt Mmr.Witness.twin.number = some c ∧ c.hash = Mmr.Witness.twin.hash) ∧
+    Mmr.verifyMmrProof true 2 Mmr.Witness.root2 [Mmr.Witness.d 0]
+      [Mmr.Witness.hd 1, Mmr.Witness.twin] = .ok false :=
+  ⟨Mmr.Witness.root2_honest, Mmr.Witness.wrapper_old_twin, Mmr.Witness.twin_not_on_chain,
+   Mmr.Witness.wrapper_new_twin⟩
+
+/-- the premises of `mmr_binds_headers` are satisfiable: an honest root and an accepted proof -/
+example : Mmr.Honest Mmr.Witness.hdrAt Mmr.Witness.root2 ∧
+    Mmr.verifyMmrProof true 2 Mmr.Witness.root2 [Mmr.Witness.d 0] [Mmr.Witness.hd 1] = .ok true :=
+  ⟨Mmr.Witness.root2_honest, Mmr.Witness.wrapper_honest⟩
+
 
 end C02
